@@ -100,7 +100,7 @@ structure SflRatio where
   over : Bool
   overMargin : Rat := 0
 
-def sumOver (l : List Aff) (f : Aff → Rat) : Rat := (l.map f).foldl (· + ·) 0
+def sumOver (l : List Aff) (f : Aff → Rat) : Rat := (l.map f).sum
 
 /-- `buying_affiliate_split_adjusted_shares_at_eop_total`. -/
 def buyersTotal (i : SliInfo) : Rat := sumOver i.buyers (fun a => (i.active a).getD 0)
